@@ -122,7 +122,48 @@ func weighted(t *rapid.T, label string, weights ...int) int {
 	return len(weights) - 1
 }
 
+// family is the per-plan base of "related" secrets: equal length, equal up to
+// some position (before/after the 64-byte HMAC block boundary), one byte more
+// or less - the inputs a cache keyed by a prefix, a length or a truncated copy
+// of the secret would confuse.
+var family []byte
+
+func genFamily(t *rapid.T) {
+	n := rapid.SampledFrom([]int{10, 20, 32, 63, 64, 65, 80, 128, 129, 200}).Draw(t, "familyLen")
+	family = rapid.SliceOfN(rapid.Byte(), n, n).Draw(t, "family")
+}
+
+func relatedSecret(t *rapid.T) []byte {
+	b := append([]byte(nil), family...)
+	n := len(b)
+	switch rapid.IntRange(0, 6).Draw(t, "relKind") {
+	case 0:
+	case 1:
+		b[n-1] ^= 0x01
+	case 2:
+		i := rapid.SampledFrom([]int{0, 19, 20, 31, 32, 63, 64, 65, 127}).Draw(t, "relPos")
+		if i >= n {
+			i = n - 1
+		}
+		b[i] ^= byte(1 + rapid.IntRange(0, 254).Draw(t, "relXor"))
+	case 3:
+		b = append(b, rapid.Byte().Draw(t, "relExtra"))
+	case 4:
+		b = b[:n-1]
+	case 5:
+		b[n/2] ^= 0x80
+	default:
+		for i := n / 2; i < n; i++ {
+			b[i] = ^b[i]
+		}
+	}
+	return b
+}
+
 func genSecret(t *rapid.T) []byte {
+	if len(family) > 0 && weighted(t, "related?", 2, 1) == 1 {
+		return relatedSecret(t)
+	}
 	switch weighted(t, "secretClass", 6, 1, 1, 1) {
 	case 0:
 		return rapid.SliceOfN(rapid.Byte(), 10, 32).Draw(t, "secret")
@@ -437,6 +478,7 @@ func genSched(t *rapid.T, nTasks int) SchedSpec {
 
 func GenPlan(t *rapid.T, prop string) *Plan {
 	p := &Plan{Prop: prop}
+	genFamily(t)
 	p.RefAfter = rapid.Bool().Draw(t, "refAfter")
 	maxTasks := rapid.SampledFrom([]int{2, 3, 4, 8, 16, 64}).Draw(t, "maxTasks")
 	if prop == "C08" {
